@@ -308,12 +308,14 @@ pub fn gen_pair(ch: &mut Choices, id: u64) -> Option<Pair> {
 pub fn gen_lex_pair(ch: &mut Choices, id: u64) -> Pair {
     use crate::genr::lexspec::{RenderOpts, gen_al, render};
     let al = gen_al(ch, 5);
-    // flags in the %grmtools section, or (1/3) through the builder's methods and no section
-    let via_builder = ch.chance(1, 3);
-    let o = RenderOpts::generate(ch, al.rules.len(), !via_builder);
+    // flags in the %grmtools section (mode 0), through the builder's methods and no section (1),
+    // or both (2): a section, and builder methods that set some flags again - documented: "Setting
+    // this flag will override the same flag within a %grmtools section"
+    let mode = ch.pick(3);
+    let o = RenderOpts::generate(ch, al.rules.len(), mode != 1);
     let (ltext, _) = render(&al, &o);
     let mut settings = serde_json::Map::new();
-    if via_builder {
+    if mode == 1 {
         let mut fl = serde_json::Map::new();
         for (k, v) in al.flags.entries() {
             fl.insert(k.to_string(), json!(v));
@@ -321,7 +323,29 @@ pub fn gen_lex_pair(ch: &mut Choices, id: u64) -> Pair {
         for (k, v) in al.flags.num_entries() {
             fl.insert(k.to_string(), json!(v));
         }
+        settings.insert("rt_flags".into(), Value::Object(fl.clone()));
         settings.insert("builder_flags".into(), Value::Object(fl));
+    } else if mode == 2 {
+        let mut bf = serde_json::Map::new();
+        let n = ch.range(1, 3);
+        for _ in 0..n {
+            let k = *ch.choose(&["case_insensitive", "dot_matches_new_line", "multi_line", "swap_greed", "octal", "posix_escapes", "allow_wholeline_comments", "case_insensitive"]);
+            bf.insert(k.to_string(), json!(ch.chance(1, 2)));
+        }
+        // in force: the section's flags, overridden by the builder's
+        let mut eff = serde_json::Map::new();
+        for (k, v) in al.flags.entries() {
+            eff.insert(k.to_string(), json!(v));
+        }
+        for (k, v) in al.flags.num_entries() {
+            eff.insert(k.to_string(), json!(v));
+        }
+        for (k, v) in &bf {
+            eff.insert(k.clone(), v.clone());
+        }
+        settings.insert("rt_flags".into(), Value::Object(eff));
+        settings.insert("builder_flags".into(), Value::Object(bf));
+        settings.insert("section_and_builder".into(), json!(true));
     }
     let inputs = crate::props::c09::gen_inputs(ch, &al, 6);
     let mut ids = vec![];
@@ -534,7 +558,7 @@ pub fn custom_run(cfg: &RunCfg) -> i32 {
             "disagreements_checked": comparisons,
             "evaluations": comparisons,
             "distinct_nontrivial": nontrivial.len(),
-            "rule": "Pairs (grammar, lexer) whose token names agree: AG from strata rand/expr/lr1/repo (cycle-free, loop-free tables, random precedence and %avoid_insert), kinds Grmtools and Original(UserAction) (user actions from a fixed template recording production, $span, every $i as Ok/Err lexeme or child string, $lexer and $$; %parse-param absent / a u64 by value / a shared RefCell log every action appends to / a reference behind %parse-generics; with the log, some Grmtools rules have the unit action type so that their actions are visible only in the log; every third action body spans two lines), Original(GenericParseTree), Original(NoAction); settings sampled: yacckind through builder or %grmtools header, recoverer CPCT+/None through builder and/or header, serialisation format, Rust edition, visibility, lexer flags through builder or header; 7 inputs per pair (sentences, near misses, upper-cased words, multi-line skip text, a lexing error). One cargo build of engine/ctbatch runs the real CTLexerBuilder/CTParserBuilder per pair in its build script; its binary lexes and parses every input with the generated modules and with LRNonStreamingLexerDef/RTParserBuilder built from the same source strings (user actions evaluated natively) and compares lexemes, value/tree, errors with repair sets, token_epp, R_*/N_* constants; each module's first parse is also made by 8 barrier-released threads (C15). programs = pairs compiled and run; disagreements_checked = comparisons. Besides the pairs, 60 (thorough: 80 per batch) lexer-only items: a specification from the lexer generators of C09/C11 (start states with push/pop/replace targets, <..> prefixes, every kind of escape, flags in a %grmtools section or - one third - through the builder's flag methods, varied rendering) built by CTLexerBuilder with a user-supplied rule_ids_map; the generated module's definition (rules: id, name, expression, start states, target; start states) and its lexemes on 6 inputs sampled from the rules must equal those of LRNonStreamingLexerDef::from_str + set_rule_ids on the same text, and one side refusing what the other accepts is a mismatch. Non-trivial pair: non-default setting or an input with a lexing error, or a lexer-only item; distinct by hash(sources).",
+            "rule": "Pairs (grammar, lexer) whose token names agree: AG from strata rand/expr/lr1/repo (cycle-free, loop-free tables, random precedence and %avoid_insert), kinds Grmtools and Original(UserAction) (user actions from a fixed template recording production, $span, every $i as Ok/Err lexeme or child string, $lexer and $$; %parse-param absent / a u64 by value / a shared RefCell log every action appends to / a reference behind %parse-generics; with the log, some Grmtools rules have the unit action type so that their actions are visible only in the log; every third action body spans two lines), Original(GenericParseTree), Original(NoAction); settings sampled: yacckind through builder or %grmtools header, recoverer CPCT+/None through builder and/or header, serialisation format, Rust edition, visibility, lexer flags through builder or header; 7 inputs per pair (sentences, near misses, upper-cased words, multi-line skip text, a lexing error). One cargo build of engine/ctbatch runs the real CTLexerBuilder/CTParserBuilder per pair in its build script; its binary lexes and parses every input with the generated modules and with LRNonStreamingLexerDef/RTParserBuilder built from the same source strings (user actions evaluated natively) and compares lexemes, value/tree, errors with repair sets, token_epp, R_*/N_* constants; each module's first parse is also made by 8 barrier-released threads (C15). programs = pairs compiled and run; disagreements_checked = comparisons. Besides the pairs, 60 (thorough: 80 per batch) lexer-only items: a specification from the lexer generators of C09/C11 (start states with push/pop/replace targets, <..> prefixes, every kind of escape, flags in a %grmtools section, through the builder's flag methods (no section), or both with the builder overriding the section - one third each -, varied rendering) built by CTLexerBuilder with a user-supplied rule_ids_map; the generated module's definition (rules: id, name, expression, start states, target; start states) and its lexemes on 6 inputs sampled from the rules must equal those of LRNonStreamingLexerDef::from_str + set_rule_ids on the same text, and one side refusing what the other accepts is a mismatch. Non-trivial pair: non-default setting or an input with a lexing error, or a lexer-only item; distinct by hash(sources).",
             "samples": samples,
             "classes": classes,
             "replayed": replay_pairs.len(),
